@@ -600,7 +600,10 @@ func (f *lambdaCallable) wrapVariadicArgs(argv []reflect.Value) []reflect.Value 
 	vars := reflect.MakeSlice(typeInterfaceSlice, n, n)
 
 	for i := 0; i < n; i++ {
-		vars.Index(i).Set(argv[paramCount-1+i])
+		// A missing (undefined) argument stays nil.
+		if v := argv[paramCount-1+i]; v.IsValid() {
+			vars.Index(i).Set(v)
+		}
 	}
 
 	return append(argv[:paramCount-1], vars)
